@@ -58,13 +58,22 @@ def run(ctx):
             tmodel.write_ktables(spec, kdir, w)
             for em in (False, True):
                 with np.errstate(all='ignore'):
-                    a = tmodel.build(spec, emission=em).model()
+                    ma = tmodel.build(spec, emission=em)
+                    a = ma.model()
                     b = tmodel.build(spec, emission=em, kdir=kdir).model()
+                atol_em = 0.0
+                if em:
+                    # the cross-section path replaces exp(-tau) by 0 where tau >= 10 over the whole grid (each such term is
+                    # at most exp(-10)); by summation by parts the layer sum  sum_l B_l (g_{l+1} - g_l)  then moves by at
+                    # most exp(-10) (B_top + B_bottom + total variation of B over the layers)
+                    from taurex.util.emission import black_body
+                    Bl = np.array([black_body(np.array(a[0]), float(t_)) for t_ in ma.temperatureProfile])
+                    bound = Bl[0] + Bl[-1] + np.sum(np.abs(np.diff(Bl, axis=0)), axis=0)
+                    atol_em = math.exp(-10) * bound / np.array(ma.star.spectralEmissionDensity) * \
+                        (ma.planet.fullRadius / ma.star.radius) ** 2
                 ctx.case(('degenerate', em, i, float(a[1][0])),
                          nontrivial=bool(np.any((a[2] > 1e-6) & (a[2] < 1 - 1e-6))) or em)
-                # emission: the cross-section path drops exp(-tau) terms of layers with tau >= 10 (the licensed cut-off),
-                # the k-table path keeps them: the two may differ by exp(-10) of the hottest layer's black body
-                ok = np.allclose(a[1], b[1], rtol=(math.exp(-10) + 1e-7) if em else 1e-9, atol=0) and np.array_equal(a[0], b[0])
+                ok = bool(np.all(np.abs(a[1] - b[1]) <= atol_em + (1e-7 if em else 1e-9) * np.abs(a[1]))) and np.array_equal(a[0], b[0])
                 if not em:
                     ok = ok and np.allclose(a[2], b[2], rtol=0, atol=1e-9)
                 if ok:
